@@ -1,4 +1,4 @@
-import GrinVerif.Lemmas.SerAccept
+import GrinVerif.Lemmas.SerCanonHdr
 /-! # C10 — encoding round-trips, canonical form, version-independent hashes
 
 Property theorems about the codec model (`Model/Ser*.lean`), which the correspondence run ties to
@@ -359,5 +359,59 @@ theorem tip_roundtrip (t : Tip) (hwf : t.WF) (rest : Bytes) : decTip (encTip t +
 example : ({ height := 2^64 - 1, lastBlockH := List.replicate 32 255, prevBlockH := List.replicate 32 0,
              totalDifficulty := 0 } : Tip).WF :=
   ⟨by decide, List.length_replicate, List.length_replicate, by decide⟩
+
+/-! ## Canonical form, decoder side: accepted ⇒ *is* the encoding
+
+For **every** byte string `bs` of real bytes (`AllBytes`: each `< 256`): if the decoder accepts, the
+bytes it consumed are exactly the encoding of the value it returned (and that value is in `WF`).
+So no two different byte strings decode to the same value, nothing is normalised, and every
+single-byte / single-field perturbation of a valid encoding either is refused or decodes to a
+*different* value. Proved for kernel features (both formats), kernels, output features, inputs,
+output identifiers, proofs, proofs of work, block headers and tips. -/
+
+theorem kernelFeatures_accepts_only_canonical {c : Cfg} {bs : Bytes} {f : KernelFeatures} {r : Bytes}
+    (hb : AllBytes bs) (h : decKernelFeatures c bs = .ok (f, r)) :
+    bs = encKernelFeatures c.ver .full f ++ r ∧ f.WF c.nrd := decKernelFeatures_inv hb h
+
+theorem txKernel_accepts_only_canonical {c : Cfg} {bs : Bytes} {k : TxKernel} {r : Bytes}
+    (hb : AllBytes bs) (h : decTxKernel c bs = .ok (k, r)) :
+    bs = encTxKernel c.ver .full k ++ r ∧ k.WF c.nrd := decTxKernel_inv hb h
+
+theorem input_accepts_only_canonical {bs : Bytes} {i : Input} {r : Bytes} (h : decInput bs = .ok (i, r)) :
+    bs = encInput i ++ r ∧ i.WF := decInput_inv h
+
+theorem outputId_accepts_only_canonical {bs : Bytes} {o : OutputId} {r : Bytes} (h : decOutputId bs = .ok (o, r)) :
+    bs = encOutputId o ++ r ∧ o.WF := decOutputId_inv h
+
+/-- Packed proofs: an accepted byte string re-packs to itself (all padding bits were zero, every
+nonce is below `2^edge_bits`). -/
+theorem proof_accepts_only_canonical {c : Cfg} {bs : Bytes} {p : Proof} {r : Bytes} (hb : AllBytes bs)
+    (h : decProof c bs = .ok (p, r)) : bs = encProof c.proofSize .full p ++ r ∧ p.WF c.proofSize :=
+  decProof_inv hb h
+
+theorem blockHeader_accepts_only_canonical {c : Cfg} {bs : Bytes} {hd : BlockHeader} {r : Bytes}
+    (hb : AllBytes bs) (h : decBlockHeader c bs = .ok (hd, r)) :
+    bs = encBlockHeader c.proofSize .full hd ++ r ∧ hd.WF c.proofSize := decBlockHeader_inv hb h
+
+theorem tip_accepts_only_canonical {bs : Bytes} {t : Tip} {r : Bytes} (hb : AllBytes bs)
+    (h : decTip bs = .ok (t, r)) : bs = encTip t ++ r ∧ t.WF := decTip_inv hb h
+
+/-- The exception, exactly delimited: a range proof is canonical as soon as its length field says
+675 — the only way `RangeProof::read` normalises is through that field. -/
+theorem rangeProof_len675_canonical {rest' : Bytes} {p : RangeProof} {r : Bytes}
+    (h : decRangeProof (writeU64 MAX_PROOF_SIZE ++ rest') = .ok (p, r)) :
+    writeU64 MAX_PROOF_SIZE ++ rest' = encRangeProof p ++ r ∧ p.WF := by
+  have h64 : MAX_PROOF_SIZE < 2^64 := by unfold MAX_PROOF_SIZE; omega
+  rw [decRangeProof, readU64_write _ h64, andThen_ok, Nat.min_self] at h
+  obtain ⟨x, r1, h1, h2⟩ := andThen_inv h
+  obtain ⟨e1, l1⟩ := readFixed_ok h1
+  simp only [Except.ok.injEq, Prod.mk.injEq] at h2
+  obtain ⟨rfl, rfl⟩ := h2
+  subst e1
+  have hsub : MAX_PROOF_SIZE - x.length = 0 := by omega
+  have htake : List.take MAX_PROOF_SIZE x = x := by rw [← l1]; exact List.take_length
+  rw [hsub, List.replicate_zero, List.append_nil]
+  refine ⟨?_, rfl, l1⟩
+  simp only [encRangeProof, writeBytes, htake, l1, List.append_assoc]
 
 end GV.Props.C10
